@@ -590,7 +590,7 @@ func c12Explore(c *Ctx) {
 	rec(nil)
 	dir := scratchDir(c)
 	type res struct{ gb, gp, b, d string }
-	out := parallelMap(len(lists), 32, func(i int) res {
+	out := parallelMap(len(lists), 4, func(i int) res {
 		src := c12Src(lists[i], nil)
 		return res{c12Go(syntax.LangBash, src), c12Go(syntax.LangPOSIX, src),
 			c12Shell(c, "bash", dir, i, src), c12Shell(c, "dash", dir, i, src)}
@@ -918,7 +918,7 @@ func c12Sample(c *Ctx) {
 	}
 	dir := scratchDir(c)
 	type res struct{ b, d string }
-	out := parallelMap(len(lists), 16, func(i int) res {
+	out := parallelMap(len(lists), 4, func(i int) res {
 		src := c12Src(lists[i], nil)
 		return res{c12Shell(c, "bash", dir, i, src), c12Shell(c, "dash", dir, i, src)}
 	})
@@ -1150,7 +1150,7 @@ func c12(c *Ctx) {
 	}
 	dir := scratchDir(c)
 	shellRes := map[int]string{}
-	res := parallelMap(len(jobs), 12, func(j int) string {
+	res := parallelMap(len(jobs), 4, func(j int) string {
 		cs := cases[jobs[j]]
 		sh := "bash"
 		if cs.posix {
